@@ -190,7 +190,13 @@ def scenario(inst, V):
             fnlib.HOLD["ret"] = out
             fnlib.HOLD["body_exc"] = KeyError("from body") if inst.get("body_raises") else None
             n0 = fnlib.HOLD["calls"]
+            # manual checks inside the body: two arrays of different size against one axis name
+            pa, pb = V.arr([3]), V.arr([4])
+            ZQ = jt.Float[V.ARR, "zq"]
+            fnlib.HOLD["probe"] = lambda: (isinstance(pa, ZQ), isinstance(pb, ZQ))
+            fnlib.HOLD["probe_result"] = None
             kindr, res = fnlib.call(fn, ["x", "y"], [x, y], "pos")
+            fnlib.HOLD["probe"] = None
             ncalls = fnlib.HOLD["calls"] - n0
             plain = (kind == "notypecheck") or bool(st)
             if plain:
@@ -201,8 +207,10 @@ def scenario(inst, V):
                     ok = kindr == "OK" and ncalls == 1 and res.x is x and res.y is y
                 else:
                     ok = kindr == "OK" and res is out and ncalls == 1
+                # plain code has no jaxtyping context of its own: the body's manual checks are stateless
+                ok = ok and fnlib.HOLD["probe_result"] == (True, True)
                 V.check("notypecheck-is-plain" if kind == "notypecheck" else "disabled-is-plain", ok,
-                        got=kindr, calls=ncalls, call=ci, states=states)
+                        got=kindr, calls=ncalls, call=ci, states=states, body_checks=fnlib.HOLD["probe_result"])
             else:
                 V.reach("call-enabled-" + kindr)
                 if inst.get("body_raises"):
